@@ -132,12 +132,15 @@ def run_new(path, features):
             f.write(json.dumps(op) + "\n")
     env = dict(os.environ)
     env["VERIF_NEW_FUEL"] = "2000000"
-    try:
-        r = subprocess.run([common.rt_bin(features), "play", sp], capture_output=True, text=True, timeout=20, env=env)
-        out = common.parse_json_lines(r.stdout.split("\n"))
-        rc = r.returncode
-    except subprocess.TimeoutExpired:
-        out, rc = [{"r": "timeout"}], -9
+    out, rc = [{"r": "timeout"}], -9
+    for limit in (20, 240):     # (a second, much longer try: a loaded machine must not look like a hang)
+        try:
+            r = subprocess.run([common.rt_bin(features), "play", sp], capture_output=True, text=True, timeout=limit, env=env)
+            out = common.parse_json_lines(r.stdout.split("\n"))
+            rc = r.returncode
+            break
+        except subprocess.TimeoutExpired:
+            out, rc = [{"r": "timeout"}], -9
     os.remove(sp)
     if not out:
         return {"r": "abort", "rc": rc}
